@@ -6,7 +6,7 @@ from vlib import ToolError
 
 def run(v):
     t, zoo, vec, summ, ssum = uperlib.uper_check(
-        v, "C02", classes={"bits", "read-reference", "refused-valid", "write-panic"})
+        v, "C02", classes={"bits", "read-reference", "refused-valid", "write-panic", "dev-mismatch"})
     st = summ["stats"]
     v.cov["distinct_nontrivial"] = st.get("encoded", 0)
     v.cov["rule"] = ("TLC (MC_Uper over Zoo.tla/X691.tla) enumerates every type of the zoo (%d types: all constraint forms of every "
